@@ -256,6 +256,26 @@ def run(ctx, rep):
                 norm.append(f"{fn_key(b)}: {callee(t).rsplit('::', 1)[-1]} @{where(b, bb)}")
     rep.check("C04.f", "password-verbatim", not norm, where="crates/core/src/repository/credentials.rs", what="credential readers strip at most one line ending; no trimming/normalising of the password" if not norm else f"the password is normalised before use ({norm}): different passwords open the same repository")
     # ---- C04.f ------------------------------------------------------------------------------------
+    # the key-derivation input is the password as given, identically when a key is created and when it is checked
+    kdf_sites = []
+    for b in prog.by_crate["rustic_core"]:
+        if "repofile::keyfile" not in b.path:
+            continue
+        for bb, t in b.calls():
+            if "callee" in t and re.search(r"^scrypt::scrypt$", callee(t)):
+                kdf_sites.append((b, bb, t))
+    rep.require("C04.f", "kdf-sites", len(kdf_sites) >= 2, where="crates/core/src/repofile/keyfile.rs", what=f"scrypt is applied when a key is generated and when a password is checked ({len(kdf_sites)} sites)")
+    shapes = []
+    for (b, bb, t) in kdf_sites:
+        e = flow.expr_of(b, t["args"][0], bb)
+        _, cs = flow.expr_mentions(e)
+        # only reference / AsRef adaptors between the password parameter and scrypt
+        extra = sorted(c for c in cs if not re.search(r"convert::AsRef<.*>>::as_ref$|AsRef::as_ref$|ops::Deref>::deref$|::as_bytes$|::as_slice$|borrow::Borrow", c))
+        leaf_args = {x for x in re.findall(r"\('arg', (\d+)\)", repr(e))}
+        ok = not extra and len(leaf_args) == 1
+        shapes.append(tuple(extra))
+        rep.check("C04.f", f"kdf-input-is-password/{fn_key(b)}", ok, where=where(b, bb), what=f"{fn_key(b)}: scrypt is applied to the password exactly as passed in" if ok else
+                  f"{fn_key(b)}: the password is transformed before key derivation ({[strip_crate(x) for x in extra]}): creating a key and checking a password no longer agree for some passwords")
     FK = prog.find1(r"^rustic_core::repofile::keyfile::find_key_in_backend$")
     codes = []
     for bb, t in FK.calls():
